@@ -93,16 +93,18 @@ func (d *wrappedSlidingWindowDetector) Check(seq uint64) (func() bool, bool) {
 		// Exceeded upper limit.
 		return nop, false
 	}
+	latestSeq := d.latestSeq
 	if !d.init {
+		// Nothing accepted yet: position the window just behind seq,
+		// but only in the accept callback (Check must not change the state).
 		if seq != 0 {
-			d.latestSeq = seq - 1
+			latestSeq = seq - 1
 		} else {
-			d.latestSeq = d.maxSeq
+			latestSeq = d.maxSeq
 		}
-		d.init = true
 	}
 
-	diff := int64(d.latestSeq) - int64(seq) //nolint:gosec // GG115 TODO check
+	diff := int64(latestSeq) - int64(seq) //nolint:gosec // GG115 TODO check
 	// Wrap the number.
 	if diff > int64(d.maxSeq)/2 { //nolint:gosec // GG115 TODO check
 		diff -= int64(d.maxSeq + 1) //nolint:gosec // GG115 TODO check
@@ -122,6 +124,7 @@ func (d *wrappedSlidingWindowDetector) Check(seq uint64) (func() bool, bool) {
 	}
 
 	return func() bool {
+		d.init = true
 		latest := false
 		if diff < 0 {
 			// Update the head of the window.
